@@ -285,10 +285,11 @@ func c11BlankSources(c *vlib.Ctx, dir string) {
 }
 
 func C11(c *vlib.Ctx) {
-	c.Rule("generated configurations (0-3 global pull tokens, 2-4 pull routes with 0-2 own tokens, 0-2 admin tokens as raw:/env:/file: refs) run through the production wiring; the queue is pre-loaded with ready and leased messages whose lease ids the caller knows; every endpoint x {dequeue, ack, nack, extend} over HTTP and gRPC and every Admin endpoint/method pair (incl. /healthz, mutations and unknown paths) is called with each credential variant (absent, empty, scheme alone, valid, prefix/suffix/+1 char/case variant, another route's token, the global token on an override route, Basic, no scheme, two values, NUL). Independent allowlist oracle: not authorized => 401/Unauthenticated and snapshot unchanged; authorized => not 401 (vacuity guard). Configurations with a pull route lacking any token must not compile. Every third configuration is probed again after a reload the process must refuse (ingress listener moved) whose file carries another token layout (all tokens replaced, or another generated layout, possibly without admin tokens): the allowlists of the running configuration stay in force and the refused file's tokens are tried as foreign ones. distinct_nontrivial = distinct (surface, operation, credential variant, authorized, outcome) classes.")
+	c.Rule("generated configurations (0-3 global pull tokens, 2-4 pull routes with 0-2 own tokens, 0-2 admin tokens as raw:/env:/file: refs) run through the production wiring; the queue is pre-loaded with ready and leased messages whose lease ids the caller knows; every endpoint x {dequeue, ack, nack, extend} over HTTP and gRPC and every Admin endpoint/method pair (incl. /healthz, mutations and unknown paths) is called with each credential variant (absent, empty, scheme alone, valid, prefix/suffix/+1 char/case variant, another route's token, the global token on an override route, Basic, no scheme, two values, NUL). Independent allowlist oracle: not authorized => 401/Unauthenticated and snapshot unchanged; authorized => not 401 (vacuity guard). Configurations with a pull route lacking any token must not compile. Concurrency: four callers with the valid token next to twelve with same-length near-miss tokens on the global allowlist, a route allowlist and the Admin API - every near-miss request must be answered 401. Every third configuration is probed again after a reload the process must refuse (ingress listener moved) whose file carries another token layout (all tokens replaced, or another generated layout, possibly without admin tokens): the allowlists of the running configuration stay in force and the refused file's tokens are tried as foreign ones. distinct_nontrivial = distinct (surface, operation, credential variant, authorized, outcome) classes.")
 	c.Assume("lower-case scheme spelling and a valid token in a second header value are treated as ambiguous (either answer accepted); whitespace-only variations of a valid header are not generated")
 	dir := c.Scratch()
 	c11BlankSources(c, dir)
+	c11Concurrent(c, dir)
 	nCfg := c.N(36, 5000)
 	authorizedSeen := 0
 	for ci := 0; ci < nCfg; ci++ {
